@@ -93,6 +93,24 @@ def _param_shapes():
 
 
 ARGS4 = _arg_arrangements(4)
+
+
+def _arg_layouts(maxlen):
+    """The same arrangements up to `maxlen` laid out over several lines, every element on its own line at a smaller (and, second
+    layout, larger) column than the one before: source order is (line, column) order, neither alone."""
+    out = []
+    for src in _arg_arrangements(maxlen):
+        head, _, rest = src.partition('(')
+        body, _, tail = rest.rpartition(')')
+        parts = body.split(', ')
+        for cols in ([2 * (len(parts) - i) for i in range(len(parts))], [1 + 3 * i for i in range(len(parts))]):
+            txt = head + '(' + ''.join((',\n' + ' ' * c if i else ' ' * (c + 8)) + p for i, (c, p) in enumerate(zip(cols, parts))) + ')' + tail
+            ast.parse(txt)
+            out.append(txt)
+    return out
+
+
+ARGS_ML = _arg_layouts(3)
 PARAMS = _param_shapes()
 BLOCKS = [  # every statement-list field with two or three statements (sibling stepping inside each kind of block)
     "match s:\n case 1:\n  a\n  b\n  c\n case [x] if g:\n  d\n  e",
@@ -114,7 +132,7 @@ FSTR14 = [  # every shape of replacement field: empty / literal / nested format 
 LONG14 = [  # list fields with more than ten elements (indices of two digits in string paths)
     "x = [a0, a1, a2, a3, a4, a5, a6, a7, a8, a9, a10, a11, a12]\n" + "\n".join(f"s{i} = {i}" for i in range(12)) + "\nf(b0, b1, b2, b3, b4, b5, b6, b7, b8, b9, b10, k=b11)",
 ]
-PROGS = PROGS + ARGS4 + PARAMS + BLOCKS + FSTR14 + LONG14
+PROGS = PROGS + ARGS4 + PARAMS + BLOCKS + FSTR14 + LONG14 + ARGS_ML
 for _p in FSTR14:
     ast.parse(_p)
 for _p in PROGS[:N_HAND]:
